@@ -31,6 +31,10 @@ type PermCase struct {
 	// PatternVar: the guarded branch has a pattern that binds a variable
 	// with a permanent name from the bindings ({"x": "?p!"})
 	PatternVar bool `json:"patternVar,omitempty"`
+	// Warm: states the same compiled action / guard processes before the
+	// judged one (each is judged too): what an action learns from one
+	// machine's bindings must not decide what it does for another's
+	Warm []map[string]interface{} `json:"warm,omitempty"`
 }
 
 var permKeys = []string{"cfg!", "id!", "!", "a!b!", "x", "y", "n", "!lead", "?p!"}
@@ -64,6 +68,17 @@ func genPerm(t *rapid.T) PermCase {
 			c.Bs["x"] = jsongen.Value(t, jsongen.Opts{Depth: 1, Width: 2}, "pvx")
 		}
 		delete(c.Bs, "?p!")
+	}
+	for i := rapid.IntRange(0, 2).Draw(t, "nwarm"); i > 0; i-- {
+		w := map[string]interface{}{}
+		keys := permKeys
+		if rapid.Bool().Draw(t, fmt.Sprintf("warmplain%d", i)) {
+			keys = []string{"x", "y", "n", "!lead"} // nothing permanent
+		}
+		for j := rapid.IntRange(1, 3).Draw(t, fmt.Sprintf("warmn%d", i)); j > 0; j-- {
+			w[rapid.SampledFrom(keys).Draw(t, fmt.Sprintf("warmk%d.%d", i, j))] = jsongen.Value(t, jsongen.Opts{Depth: 1, Width: 2}, fmt.Sprintf("warmv%d.%d", i, j))
+		}
+		c.Warm = append(c.Warm, w)
 	}
 	c.InPlace = (c.Native || c.GuardNative) && rapid.Bool().Draw(t, "inplace")
 	c.Direct = c.Guard == nil && rapid.IntRange(0, 3).Draw(t, "direct") == 0
@@ -112,13 +127,38 @@ func checkPermanentsIn(before map[string]interface{}, after match.Bindings, what
 }
 
 func checkPerm(c PermCase) (v ev.Verdict) {
-	nperm := len(permanents(c.Bs))
 	a := c.spec()
 	spec, err := a.Compiled()
 	if err != nil {
 		v.Failf("spec does not compile: %v", err)
 		return
 	}
+	// the same compiled spec, one state after the other
+	for i, w := range c.Warm {
+		wc := c
+		wc.Bs = w
+		if c.PatternVar {
+			if _, have := wc.Bs["x"]; !have {
+				wc.Bs = jsongen.CopyMap(w)
+				wc.Bs["x"] = 1.0
+			}
+			delete(wc.Bs, "?p!")
+		}
+		wv := checkPermOn(wc, a, spec)
+		if wv.Err != "" {
+			v.Failf("earlier state %d of %d on the same compiled spec: %s", i, len(c.Warm), wv.Err)
+			return
+		}
+	}
+	v = checkPermOn(c, a, spec)
+	if len(c.Warm) > 0 {
+		v.Class("after-other-states")
+	}
+	return
+}
+
+func checkPermOn(c PermCase, a *sm.ASpec, spec *core.Spec) (v ev.Verdict) {
+	nperm := len(permanents(c.Bs))
 	touches := func(p *sm.Prog) bool {
 		if p == nil {
 			return false
